@@ -114,7 +114,11 @@ pub fn spec() -> CheckSpec {
             Variant { name: "binding-strings", profile: Profile { backend: BackendMix::Sqlite, steps_lo: 30, steps_hi: 70, ..base.clone() }, runs_quick: 200, runs_thorough: 20000, oracle: super::c10::mk_nop, guarded: false, configure_gen: None, post: None, custom: Some(super::bind::run) },
         ],
         assumptions: vec!["binding layer: three mdk-uniffi instances on unencrypted SQLite files play a session through the exported functions only; the callback interface and the keyring constructor are not exercised", "failure records in processed_messages / processed_welcomes may appear"],
-        real: super::REAL.to_vec(),
+        real: {
+            let mut r = super::REAL.to_vec();
+            r.push("mdk-uniffi (exported functions called directly from Rust; variant binding-strings)");
+            r
+        },
         stubs: super::STUBS.to_vec(),
     }
 }
